@@ -245,6 +245,15 @@ namespace c11
     return out;
   }
 
+  inline std::string trim_ws(const std::string& s)
+  {
+    const char* ws = " \a\b\f\n\r\t\v";
+    size_t a = s.find_first_not_of(ws);
+    if(a == std::string::npos) return std::string();
+    size_t b = s.find_last_not_of(ws);
+    return s.substr(a, b - a + 1);
+  }
+
   inline bool read_file(const std::string& path, std::string& out)
   {
     std::ifstream in(path, std::ios::binary);
